@@ -226,7 +226,12 @@ func (m *c19Model) step(op c19Op) c19Exp {
 	}
 	if strings.HasPrefix(op.Op, "mismatch:") {
 		if m.past {
-			return c19Exp{unk: true} // in state past the eof_action decides first; not modelled for this variant
+			// in state past the eof_action decides first, as for the plain peek (a reset stream makes another attempt and
+			// may not say past afterwards); the outcome of this variant is not asserted then
+			base := op
+			base.Op = op.Op[9:]
+			m.step(base)
+			return c19Exp{unk: true}
 		}
 		if m.text && m.pos < m.avail {
 			if r, _ := utf8.DecodeRune(m.src.Bytes[m.pos:m.avail]); r == utf8.RuneError {
@@ -234,6 +239,24 @@ func (m *c19Model) step(op c19Op) c19Exp {
 			}
 		}
 		return c19Exp{fail: true}
+	}
+	if strings.HasPrefix(op.Op, "eofarg:") {
+		// the argument is bound to end_of_file / -1: an ordinary read or peek whose result is then unified with it
+		base := op
+		base.Op = op.Op[7:]
+		if m.past {
+			m.step(base) // the eof_action decides first, as for the plain operation; the outcome of this variant is not asserted then
+			return c19Exp{unk: true}
+		}
+		e := m.step(base)
+		eofVal := "end_of_file"
+		if strings.HasSuffix(base.Op, "byte") {
+			eofVal = "-1"
+		}
+		if e.unk || e.err != "" || e.val == eofVal {
+			return e
+		}
+		return c19Exp{fail: true, moved: e.moved}
 	}
 	if strings.HasPrefix(op.Op, "wrong:") {
 		if m.past && m.eof == "reset" {
@@ -494,6 +517,8 @@ func c19Gen(r *kit.Run) (*c19Scenario, *c19Source) {
 		op.Op = choices[g.Choose(len(choices))]
 		if g.Choose(20) == 0 && (strings.HasPrefix(op.Op, "peek_char") || strings.HasPrefix(op.Op, "peek_byte")) {
 			op.Op = "mismatch:" + op.Op // the argument is bound to something that does not come next: fails, consumes nothing
+		} else if g.Choose(20) == 0 && (op.Op == "get_char" || op.Op == "peek_char" || op.Op == "get_byte" || op.Op == "peek_byte") {
+			op.Op = "eofarg:" + op.Op // the usual test for the end: get_char(S, end_of_file), peek_byte(S, -1)
 		}
 		if g.Choose(25) == 0 {
 			// an operation of the other stream type: it must be refused and leave the cursor and the end-of-stream state alone
@@ -563,6 +588,16 @@ func c19OpText(op c19Op, mode string, v string, text bool) string {
 			return fmt.Sprintf("%s(%s)", op.Op[6:], v)
 		}
 		return fmt.Sprintf("%s(%s, %s)", op.Op[6:], s, v)
+	}
+	if strings.HasPrefix(op.Op, "eofarg:") {
+		arg := "end_of_file"
+		if strings.HasSuffix(op.Op, "byte") {
+			arg = "-1"
+		}
+		if mode == "W" {
+			return fmt.Sprintf("%s = %s, %s(%s)", v, arg, op.Op[7:], v)
+		}
+		return fmt.Sprintf("%s = %s, %s(%s, %s)", v, arg, op.Op[7:], s, v)
 	}
 	if strings.HasPrefix(op.Op, "mismatch:") {
 		// a character / byte that never occurs in generated sources
@@ -877,6 +912,8 @@ func c19Sig(sc *c19Scenario, ops []c19Op, n int, what string) string {
 			return "wrong-type"
 		case strings.HasPrefix(op, "mismatch:"):
 			return "peek-mismatch"
+		case strings.HasPrefix(op, "eofarg:"):
+			return "bound-eof-argument"
 		case strings.HasPrefix(op, "peek"):
 			return "peek"
 		case strings.HasPrefix(op, "get"), op == "skip":
